@@ -81,6 +81,8 @@ def jobs(prop, tier, only_fn=None):
         geos = [(4, 3)] if tier == "quick" else [(4, 3), (6, 4), (5, 5)]
         if T in ("wchar_t", "uint32_t", "uint16_t") and tier == "quick":
             geos = [(3, 3)]
+        if name.startswith("mem") and T == "unsigned char" and prop == "C10":
+            geos = geos + [(9, 9)]  # word-at-a-time comparisons need whole aligned words and a tail
         for (dn, sn) in geos:
             files = sorted(set([f] + SUP + EXTRA.get(name, [])))
             out.append(Job("%s.%s.d%d.s%d" % (name, prop, dn, sn), prop, "h_query.c", files,
